@@ -462,6 +462,10 @@ class DynamicSlicer:
         # dominated by the loops to which they are connected, and this is not necessarily
         # reflected in the CDG.
         dominated_nodes = cdg.get_descendants(node)
+        if cdg.graph.has_edge(node, node):
+            # nx.descendants() never contains the start node: a loop whose body block ends with
+            # the (duplicated) loop test is control dependent on itself.
+            dominated_nodes = dominated_nodes | {node}
         dominator_loops = cdg.get_dominator_loops(node)
         dominated_instr_ctrl_deps = {
             instr
